@@ -291,6 +291,7 @@ SibRef(sp, segs, file) ==
       [] sp = "out"   -> Ref(segs \o <<file>>, Len(segs), FALSE, "ref")  \* <a>/out.txt:ref
       [] sp = "q"     -> Ref(segs \o <<file>>, Len(segs), TRUE, "ref")   \* "<a>"/out.txt:ref
       [] sp = "qcut"  -> Ref(segs \o <<file>>, 1, TRUE, "output")        \* "<w>"/a/out.txt:output
+      [] sp \in {"dup", "two"} -> Ref(segs, 0, FALSE, "ref")             \* <a>:ref, and a second reference to a in y
 ConsFor(sp) == IF sp = "bareT" THEN "consT" ELSE "consA"
 
 (* value handed to the parameter p of the next level, and the x argument of the consumer that uses %(p)s *)
@@ -350,6 +351,8 @@ BuildWf(c, k) ==
                     [] mu("badRef")     -> <<A("y", <<Bad(<<pname>>, "output")>>)>>
                     [] mu("dataCycle")  -> <<A("y", <<Ref(<<"dd">>, 0, FALSE, "output")>>)>>
                     [] k > 1            -> <<A("y", <<Ref(<<pname>>, 0, FALSE, "output")>>)>>
+                    [] c.sp = "dup"     -> <<A("y", <<Ref(<<pname>>, 0, FALSE, "ref")>>)>>            \* the same text twice
+                    [] c.sp = "two"     -> <<A("y", <<Ref(<<pname, file>>, 1, FALSE, "output")>>)>>   \* <a>/out.txt:output
                     [] OTHER            -> <<>>
         cArgs  == Opt(~mu("missingArg"), <<A("x", IF mu("methodless") THEN <<Ref(<<pname>>, 0, FALSE, "")>> ELSE cx)>>) \o cy
         \* main's second consumer reaches into the nested workflows
